@@ -354,13 +354,13 @@ Section Theorems.
       + destruct Hrest as (mi' & Hp' & Hc & Hh).
         intros t. unfold step, attempt, decode_step, piece_of.
         rewrite Hp, Hf. cbn [andb negb]. rewrite Hp', Hh, Hc, firstn_length_app. reflexivity.
-      + destruct Hrest as (Hh & Hc & HB).
+      + destruct Hrest as (Hc & HB).
         assert (Hc0 : 0 < mi_consumed mi).
         { destruct (mi_consumed mi) eqn:E; [|lia]. exfalso. apply HB.
           destruct Hm as [bd ->]. cbn. now left. }
         exists (mi_consumed mi). repeat split; [assumption|assumption| |].
         * intros t. unfold step, attempt, decode_step, piece_of.
-          rewrite Hp, Hf. cbn [andb negb]. rewrite Hh.
+          rewrite Hp, Hf. cbn [andb negb].
           rewrite firstn_le_app by assumption. now rewrite firstn_length_le.
         * now apply nosig_app_noB.
   Qed.
@@ -733,7 +733,7 @@ Module Toy.
     - eexists; split; [intros t; reflexivity|split; [reflexivity|apply full_ok_m1]].
     - eexists; split; [intros t; reflexivity|split; reflexivity].
     - eexists; split; [intros t; reflexivity|split; [reflexivity|]].
-      cbn. repeat split; [lia|]. intros [H|[]]. discriminate.
+      cbn. split; [lia|]. intros [H|[]]. discriminate.
   Qed.
 
   Example scan_filter_nonvacuous io coe :
